@@ -5,6 +5,7 @@ import GrassProofs.Lemmas.ValueEq
   Helper lemmas for C09: `veq sw` is reflexive (NaN-free values), transitive and symmetric on the
   values described by `ok sw` (see ValueEq.lean), for every variant `sw` with `canon = true`.
 -/
+set_option linter.unusedSimpArgs false
 namespace Grass.Value
 
 /-! ### numbers and colours -/
@@ -242,6 +243,101 @@ mutual
       exact (any_iff _ r).2 ⟨y, hy, by
         simp [veq_trans' sw hc k x.1 y.1 hp.1.1 okx.1 oky.1 hfx.1 hfy.1,
           veq_trans' sw hc v x.2 y.2 hp.1.2 okx.2 oky.2 hfx.2 hfy.2]⟩
+end
+
+/-! ### symmetry (needs pairwise unequal keys in the maps of the left operand) -/
+
+theorem mapWfP_mem (sw : Sw) : ∀ (p : VPairs), mapWfP sw p = true →
+    ∀ e ∈ p.toList, mapWf sw e.1 = true ∧ mapWf sw e.2 = true
+  | .nil, _, e, he => by simp [VPairs.toList] at he
+  | .cons k v t, h, e, he => by
+    simp only [mapWfP, Bool.and_eq_true] at h
+    simp only [VPairs.toList, List.mem_cons] at he
+    rcases he with he | he
+    · subst he; exact ⟨h.1.1, h.1.2⟩
+    · exact mapWfP_mem sw t h.2 e he
+
+mutual
+  theorem veq_symm' (sw : Sw) (hc : sw.canon = true) : ∀ (a b : Value),
+      ok sw a = true → ok sw b = true → mapWf sw a = true →
+      veq sw a b = true → veq sw b a = true
+    | .null, b, _, _, _, h1 => by
+      cases b <;> simp only [veq, Bool.false_eq_true] at h1 ⊢
+    | .bool x, b, _, _, _, h1 => by
+      cases b <;> simp only [veq, Bool.false_eq_true, beq_iff_eq] at h1 ⊢
+      exact h1.symm
+    | .num n1 u1, b, ha, hb, _, h1 => by
+      cases b <;> simp only [veq, Bool.false_eq_true] at h1 ⊢
+      simp only [ok] at ha hb
+      exact numEq_symm sw hc _ _ _ _ ha hb h1
+    | .str s1 q1, b, _, _, _, h1 => by
+      cases b <;> simp only [veq, Bool.false_eq_true, decide_eq_true_eq] at h1 ⊢
+      exact h1.symm
+    | .color r1 g1 b1 a1, b, ha, hb, _, h1 => by
+      cases b <;> simp only [veq, Bool.false_eq_true] at h1 ⊢
+      rename_i r2 g2 b2 a2
+      simp only [ok, Bool.and_eq_true, decide_eq_true_eq] at ha hb
+      have ha' : r1 ≤ 255 ∧ g1 ≤ 255 ∧ b1 ≤ 255 ∧ a1 ≤ 1 := ⟨ha.1.1.1, ha.1.1.2, ha.1.2, ha.2⟩
+      have hb' : r2 ≤ 255 ∧ g2 ≤ 255 ∧ b2 ≤ 255 ∧ a2 ≤ 1 := ⟨hb.1.1.1, hb.1.1.2, hb.1.2, hb.2⟩
+      rw [colorEq_char _ _ _ _ _ _ _ _ ha' hb'] at h1
+      rw [colorEq_char _ _ _ _ _ _ _ _ hb' ha']
+      simp only [Bool.and_eq_true] at h1 ⊢
+      exact ⟨⟨⟨fuzzyEq_symm _ _ h1.1.1.1, fuzzyEq_symm _ _ h1.1.1.2⟩, fuzzyEq_symm _ _ h1.1.2⟩,
+        fuzzyEq_symm _ _ h1.2⟩
+    | .list l1 s1 b1, b, ha, hb, hw, h1 => by
+      have hv : lview (.list l1 s1 b1) = some (l1, s1, b1) := rfl
+      obtain ⟨l2, s2, b2, hv2, e1, e2, h12⟩ := (veq_lview sw _ b ha hb _ _ _ hv).1 h1
+      exact (veq_lview sw b _ hb ha _ _ _ hv2).2 ⟨l1, s1, b1, hv, e1.symm, e2.symm,
+        veqL_symm' sw hc l1 l2 (by simpa [ok] using ha) (okL_of_lview sw b hb _ _ _ hv2)
+          (by simpa [mapWf] using hw) h12⟩
+    | .arglist l1 k1 sp1, b, ha, hb, hw, h1 => by
+      have hv : lview (.arglist l1 k1 sp1) = some (l1, .comma, false) := rfl
+      obtain ⟨l2, s2, b2, hv2, e1, e2, h12⟩ := (veq_lview sw _ b ha hb _ _ _ hv).1 h1
+      exact (veq_lview sw b _ hb ha _ _ _ hv2).2 ⟨l1, .comma, false, hv, e1.symm, e2.symm,
+        veqL_symm' sw hc l1 l2 (by simp only [ok, Bool.and_eq_true] at ha; exact ha.1.2)
+          (okL_of_lview sw b hb _ _ _ hv2)
+          (by simp only [mapWf, Bool.and_eq_true] at hw; exact hw.1) h12⟩
+    | .map p, b, ha, hb, hw, h1 => by
+      cases b <;> simp only [veq, Bool.false_eq_true] at h1 ⊢
+      rename_i q
+      simp only [ok] at ha hb
+      simp only [mapWf, Bool.and_eq_true] at hw
+      simp only [Bool.and_eq_true, decide_eq_true_eq] at h1 ⊢
+      refine ⟨h1.1.symm, subP_symm_of sw p q h1.1 h1.2 hw.1 ?_ ?_⟩
+      · intro e he x hx
+        have okx := okP_mem sw q hb x hx
+        have := veqP_symm' sw hc p ha hw.2 e he
+        exact ⟨this.1 x.1 okx.1, this.2 x.2 okx.2⟩
+      · intro e he e' he' x hx h2 h3
+        have oke := okP_mem sw p ha e he
+        have oke' := okP_mem sw p ha e' he'
+        have okx := okP_mem sw q hb x hx
+        exact veq_trans' sw hc e.1 x.1 e'.1 oke.1 okx.1 oke'.1 h2 h3
+  theorem veqL_symm' (sw : Sw) (hc : sw.canon = true) : ∀ (l1 l2 : VList),
+      okL sw l1 = true → okL sw l2 = true → mapWfL sw l1 = true →
+      veqL sw l1 l2 = true → veqL sw l2 l1 = true
+    | .nil, l2, _, _, _, h1 => by
+      cases l2 <;> simp only [veqL, Bool.false_eq_true] at h1 ⊢
+    | .cons a t, l2, ha, hb, hw, h1 => by
+      cases l2 <;> simp only [veqL, Bool.false_eq_true, Bool.and_eq_true] at h1 ⊢
+      rename_i b u
+      simp only [okL, Bool.and_eq_true] at ha hb
+      simp only [mapWfL, Bool.and_eq_true] at hw
+      exact ⟨veq_symm' sw hc a b ha.1 hb.1 hw.1 h1.1, veqL_symm' sw hc t u ha.2 hb.2 hw.2 h1.2⟩
+  theorem veqP_symm' (sw : Sw) (hc : sw.canon = true) : ∀ (p : VPairs),
+      okP sw p = true → mapWfP sw p = true →
+      ∀ e ∈ p.toList, (∀ x, ok sw x = true → veq sw e.1 x = true → veq sw x e.1 = true) ∧
+        (∀ x, ok sw x = true → veq sw e.2 x = true → veq sw x e.2 = true)
+    | .nil, _, _, e, he => by simp [VPairs.toList] at he
+    | .cons k v t, hp, hw, e, he => by
+      simp only [okP, Bool.and_eq_true] at hp
+      simp only [mapWfP, Bool.and_eq_true] at hw
+      simp only [VPairs.toList, List.mem_cons] at he
+      rcases he with he | he
+      · subst he
+        exact ⟨fun x hx h => veq_symm' sw hc k x hp.1.1 hx hw.1.1 h,
+          fun x hx h => veq_symm' sw hc v x hp.1.2 hx hw.1.2 h⟩
+      · exact veqP_symm' sw hc t hp.2 hw.2 e he
 end
 
 end Grass.Value
